@@ -649,3 +649,152 @@ Module Example.
           StopNoMatch 9 INITIAL).
   Proof. vm_compute. reflexivity. Qed.
 End Example.
+
+(* ---- set_rule_ids -------------------------------------------------------- *)
+
+Lemma mem_In : forall k l, mem k l = true <-> In k l.
+Proof.
+  intros k l. unfold mem. rewrite existsb_exists. split.
+  - intros [x [Hin Hx]]. apply Nat.eqb_eq in Hx. subst x. exact Hin.
+  - intros H. exists k. split; [exact H|apply Nat.eqb_refl].
+Qed.
+
+Lemma mem_false : forall k l, mem k l = false <-> ~ In k l.
+Proof.
+  intros k l. rewrite <- mem_In. destruct (mem k l); split; intros H; congruence.
+Qed.
+
+Lemma map_get_mem : forall mp k, (map_get mp k = None <-> mem k (map fst mp) = false).
+Proof.
+  intros mp k. unfold map_get. induction mp as [|[a b] mp IH]; simpl.
+  - split; reflexivity.
+  - destruct (a =? k) eqn:E; simpl.
+    + split; discriminate.
+    + exact IH.
+Qed.
+
+Definition in_map (mp : list (nat * nat)) (nm : nat) : bool := mem nm (map fst mp).
+
+Lemma filter_partition_length : forall (A : Type) (f : A -> bool) l,
+  length (filter f l) + length (filter (fun x => negb (f x)) l) = length l.
+Proof.
+  intros A f l. induction l as [|x l IH]; simpl; [reflexivity|].
+  destruct (f x); simpl; lia.
+Qed.
+
+Lemma set_ids_loop_spec : forall mp rs (pre : list rule) rs2 miss cnt,
+  set_ids_loop mp rs (length pre) = (rs2, miss, cnt) ->
+  Forall2 (assigned mp) rs rs2 /\
+  rule_names rs2 = rule_names rs /\
+  cnt = length (rule_names rs) /\
+  length miss = length (filter (fun nm => negb (in_map mp nm)) (rule_names rs)) /\
+  (forall pre2 : list rule, length pre2 = length pre ->
+     names_at (pre2 ++ rs2) miss = Done (filter (fun nm => negb (in_map mp nm)) (rule_names rs))).
+Proof.
+  intros mp rs. induction rs as [|r rs IH]; intros pre rs2 miss cnt H.
+  - simpl in H. inversion H; subst. simpl. repeat split; try constructor.
+  - simpl in H.
+    destruct (set_ids_loop mp rs (S (length pre))) as [[rs2' miss'] cnt'] eqn:E.
+    replace (S (length pre)) with (length (pre ++ [r])) in E by (rewrite app_length; simpl; lia).
+    destruct (IH _ _ _ _ E) as [IH1 [IH2 [IH3 [IH4 IH5]]]].
+    assert (Hshift : forall pre2 r', length pre2 = length pre ->
+              names_at (pre2 ++ r' :: rs2') miss' =
+              Done (filter (fun nm => negb (in_map mp nm)) (rule_names rs))).
+    { intros pre2 r' Hl. specialize (IH5 (pre2 ++ [r'])).
+      rewrite <- app_assoc in IH5. simpl in IH5. apply IH5.
+      rewrite !app_length. simpl. lia. }
+    destruct (r_name r) as [nm|] eqn:En.
+    + destruct (map_get mp nm) as [t|] eqn:Eg.
+      * inversion H; subst. simpl. rewrite En. simpl.
+        assert (Hm : in_map mp nm = true).
+        { unfold in_map. destruct (mem nm (map fst mp)) eqn:Em; [reflexivity|].
+          apply map_get_mem in Em. congruence. }
+        rewrite Hm. simpl.
+        split; [constructor; [unfold assigned; rewrite En, Eg; reflexivity|exact IH1]|].
+        split; [rewrite IH2; reflexivity|]. split; [reflexivity|]. split; [exact IH4|].
+        intros pre2 Hl. apply Hshift. exact Hl.
+      * inversion H; subst. simpl. rewrite En. simpl.
+        assert (Hm : in_map mp nm = false) by (apply map_get_mem; exact Eg).
+        rewrite Hm. simpl.
+        split; [constructor; [unfold assigned; rewrite En, Eg; reflexivity|exact IH1]|].
+        split; [rewrite IH2; reflexivity|]. split; [reflexivity|]. split; [rewrite IH4; reflexivity|].
+        intros pre2 Hl. unfold nth_checked.
+        rewrite nth_error_app2 by lia. rewrite Hl, Nat.sub_diag. simpl. rewrite En.
+        rewrite (Hshift pre2 _ Hl). reflexivity.
+    + inversion H; subst. simpl. rewrite En.
+      split; [constructor; [unfold assigned; rewrite En; reflexivity|exact IH1]|].
+      split; [exact IH2|]. split; [reflexivity|]. split; [exact IH4|].
+      intros pre2 Hl. apply Hshift. exact Hl.
+Qed.
+
+Lemma NoDup_filter : forall (A : Type) (f : A -> bool) l, NoDup l -> NoDup (filter f l).
+Proof.
+  intros A f l H. induction H as [|x l Hx Hl IH]; simpl; [constructor|].
+  destruct (f x); [|exact IH]. constructor; [|exact IH].
+  intros Hin. apply filter_In in Hin. apply Hx. apply Hin.
+Qed.
+
+Lemma set_rule_ids_exact : set_rule_ids_exact_stmt.
+Proof.
+  intros mp rs Hkeys Hnames. unfold set_rule_ids.
+  destruct (set_ids_loop mp rs 0) as [[rs2 miss] cnt] eqn:E.
+  change 0 with (length (@nil rule)) in E.
+  destruct (set_ids_loop_spec _ _ _ _ _ _ E) as [H1 [H2 [H3 [H4 H5]]]].
+  specialize (H5 [] eq_refl). simpl in H5.
+  set (notin := filter (fun nm => negb (in_map mp nm)) (rule_names rs)) in *.
+  set (inm := filter (in_map mp) (rule_names rs)).
+  assert (Hpart : length inm + length notin = length (rule_names rs))
+    by apply filter_partition_length.
+  assert (Hcnt : (cnt <? length miss) = false) by (apply Nat.ltb_ge; lia).
+  assert (Hdiff : cnt - length miss = length inm) by lia.
+  assert (Hinm_nodup : NoDup inm) by (apply NoDup_filter; exact Hnames).
+  assert (Hinm_incl : incl inm (map fst mp)).
+  { intros k Hk. apply filter_In in Hk. apply mem_In. apply Hk. }
+  (* the second component *)
+  assert (Hmfp : exists mfp,
+            match miss with [] => Done None | _ :: _ => do l <- names_at rs2 miss; Done (Some l) end
+            = Done mfp /\ oset mfp = notin /\ mfp <> Some []).
+  { destruct miss as [|i0 miss'].
+    - exists None. split; [reflexivity|]. split; [|discriminate].
+      simpl in H4. destruct notin; [reflexivity|discriminate].
+    - rewrite H5. simpl. exists (Some notin). split; [reflexivity|]. split; [reflexivity|].
+      intros Hc. inversion Hc as [Hc']. rewrite Hc' in H4. discriminate. }
+  destruct Hmfp as [mfp [Hmfp1 [Hmfp2 Hmfp3]]]. rewrite Hmfp1. simpl. rewrite Hcnt.
+  eexists rs2, _, mfp. split; [reflexivity|]. split; [exact H1|].
+  rewrite Hdiff, H2. split; [|split; [|split; [|exact Hmfp3]]].
+  - intros k. destruct (length inm =? length mp) eqn:El.
+    + simpl. split; [intros []|]. intros [Hk Hnk]. apply Nat.eqb_eq in El.
+      assert (Hincl : incl (map fst mp) inm).
+      { apply NoDup_length_incl; [exact Hinm_nodup| |exact Hinm_incl].
+        rewrite map_length. lia. }
+      apply Hnk. apply Hincl in Hk. apply filter_In in Hk. apply Hk.
+    + simpl. rewrite filter_In. split.
+      * intros [Hk Hn]. split; [exact Hk|]. apply mem_false. destruct (mem k (rule_names rs)); [discriminate|reflexivity].
+      * intros [Hk Hn]. split; [exact Hk|]. apply mem_false in Hn. rewrite Hn. reflexivity.
+  - intros k. rewrite Hmfp2. unfold notin. rewrite filter_In. unfold in_map. split.
+    + intros [Hk Hn]. split; [exact Hk|]. apply mem_false. destruct (mem k (map fst mp)); [discriminate|reflexivity].
+    + intros [Hk Hn]. split; [exact Hk|]. apply mem_false in Hn. rewrite Hn. reflexivity.
+  - destruct (length inm =? length mp) eqn:El; [discriminate|].
+    intros Hc. inversion Hc as [Hc']. apply Nat.eqb_neq in El. apply El.
+    (* every key is a rule name, so the named rules found in the map are all keys *)
+    assert (Hincl : incl (map fst mp) inm).
+    { intros k Hk. apply filter_In. unfold in_map. split; [|apply mem_In; exact Hk].
+      destruct (mem k (rule_names rs)) eqn:Em; [apply mem_In; exact Em|].
+      assert (Hin : In k (filter (fun k0 => negb (mem k0 (rule_names rs))) (map fst mp)))
+        by (apply filter_In; split; [exact Hk|rewrite Em; reflexivity]).
+      rewrite Hc' in Hin. destruct Hin. }
+    pose proof (NoDup_incl_length Hkeys Hincl) as Hle1.
+    pose proof (NoDup_incl_length Hinm_nodup Hinm_incl) as Hle2.
+    rewrite map_length in Hle1, Hle2. lia.
+Qed.
+
+Lemma set_rule_ids_dup_names_refuted : set_rule_ids_dup_names_refuted_stmt.
+Proof.
+  exists [(0, 0); (1, 1)].
+  exists [ {| r_name := Some 0; r_tok := Some 0; r_states := []; r_target := None |};
+           {| r_name := Some 0; r_tok := Some 1; r_states := [1]; r_target := None |} ].
+  eexists. exists None. split.
+  - constructor; [simpl; intros [H|[]]; discriminate|]. constructor; [intros []|constructor].
+  - split; [vm_compute; reflexivity|]. exists 1. split; [simpl; auto|].
+    simpl. intros [H|[H|[]]]; discriminate.
+Qed.
